@@ -75,7 +75,12 @@ def run(ctx, cases=None):
     ctx.assumptions += ["boost::program_options' lexer and lexical_cast are glue: the split of argv into option occurrences and the "
                         "well-formedness/value of a token for a C++ type are supplied by the harness (lib/options_cases.py) and validated by the correspondence",
                         "OpenGL-only members (gui, ForceOpenGLVersion) have no getter in this build: compared model vs implementation, not judged by the oracle"]
+    # a broken translation/proof/correspondence must not hide behind the open findings of this property
+    kf = load_known()
+    known = [v for v in ctx.violations if match_known(kf, v) is not None]
+    ctx.violations = [v for v in ctx.violations if match_known(kf, v) is None]
     conclude(ctx, coq, dis)
+    ctx.violations += known
 
 
 def replay(ctx, rp):
